@@ -586,11 +586,15 @@ func (m *Machine) refusal(t *rapid.T) {
 		m.Flags["cycle"] = true
 		m.write(t, c[0], c[1], newEdge(m.typeOf(c[0])), false, nil)
 	case "deleteRoot":
-		pts := data.Points{{Type: data.PointTypeTombstone, Value: 1, Time: now()}}
-		if rapid.Bool().Draw(t, "withOther") {
+		// key "" and key "0" are the same identity
+		pts := data.Points{{Type: data.PointTypeTombstone, Key: rapid.SampledFrom([]string{"", "0"}).Draw(t, "tombKey"), Value: 1, Time: now()}}
+		switch rapid.IntRange(0, 2).Draw(t, "withOther") {
+		case 1:
 			pts = append(data.Points{{Type: "description", Text: "x", Time: now()}}, pts...)
+		case 2:
+			pts = append(pts, data.Point{Type: "description", Text: "y", Time: now()})
 		}
-		m.logf("REFUSAL delete root")
+		m.logf("REFUSAL delete root: %s", desc(pts))
 		m.write(t, RootID, "root", pts, false, nil)
 	case "noNodeType":
 		fresh := m.freshIDs()
